@@ -15,6 +15,9 @@ def harnesses(tier, seed):
                         sym="span id of every operation in {1,2,3} (so duplicates / re-entry / pops of absent ids are all reached)"))
     hs.append(H("c06::c06_spanstack_out_of_order", desc="enter a, enter b, exit a => current is b; exit b => none", sym="ids"))
     hs.append(H("c06::c06_reach", kind="reach", desc="vacuity twin"))
+    hs.append(H("c06::c06_scope_leaf_to_root", desc="registry chain g<-p<-c: SpanRef::scope() from c and from p yields exactly the ancestors leaf to root; ancestors readable after their handles are gone", sym="metadata levels"))
+    hs.append(H("c06::c06_scope_from_root", desc="Scope::from_root() on the same chain yields g, p, c"))
+    hs.append(H("c06::c06_parent_resolution_two_threads", tier="thorough", desc="two threads entered in different spans: each thread's current span is its own; a contextual span created on a solver-chosen thread gets that thread's current span as parent", sym="creating thread"))
     # registry level: the C05 skeletons that enter spans or create contextual spans carry the current-span and
     # parent-resolution assertions
     reg = [h for h in C05.harnesses(tier, seed) if h.name.startswith("gen_c05::") and any(o[0] in "EX" for o in h.name.split("c05_sk_")[1].split("_"))]
@@ -27,10 +30,10 @@ SPEC = {
     "level": "model_checking",
     "harnesses": [],
     "caps": {"quick_harness_timeout": 300, "thorough_harness_timeout": 900, "jobs": 8, "mem_gb": 20},
-    "functions": ["tracing_subscriber::registry::stack::SpanStack::{push, pop, iter, current}", "Registry::{enter, exit, current_span, new_span (contextual / explicit / root parent resolution)}", "LookupSpan::span_data, SpanData::parent"],
+    "functions": ["tracing_subscriber::registry::stack::SpanStack::{push, pop, iter, current}", "Registry::{enter, exit, current_span, new_span (contextual / explicit / root parent resolution)}", "LookupSpan::{span, span_data}, SpanData::parent, SpanRef::{parent, scope}, Scope::{next, from_root}"],
     "sym": "ids in the SpanStack kernel; metadata levels at registry level",
     "bounds": "kernel: all push/pop sequences of <= 3 (quick) / <= 5 (thorough) operations over ids {1,2,3}; registry: the C05 skeleton bounds",
-    "outside": "SpanRef::scope / Scope::from_root iteration and Context::{lookup_current, event_scope} (not harnessed yet); tracing-error SpanTrace (formats fields into heap strings); chains > 3; the 'current' clause excludes re-entry exactly as the statement does",
+    "outside": "Context::{lookup_current, event_scope} from inside a layer and per-layer-filtered scope walks; tracing-error SpanTrace (formats fields into heap strings); chains > 3; the 'current' clause excludes re-entry exactly as the statement does",
     "stubs": ["core::fmt::write -> Ok(())", "H2 forwarders VSpanStack", "registry-level: as C05"],
     "assumptions": ["list model: pop removes the last matching entry; current = most recent non-duplicate entry"],
     "manifest": {
